@@ -492,7 +492,8 @@ def apply_op(w, op):
                         r[p] = (m.props[p][2],) * m.props[p][1]
             if mb.recs:
                 w.probe('extract_into_nonempty')
-            res = pa.extract_particles(_long(ii) if flag else list(ii), dest_array=pb, align=True, props=props)
+            al = int(op.get('tag', 0)) % 3 != 1
+            res = pa.extract_particles(_long(ii) if flag else list(ii), dest_array=pb, align=al, props=props)
             if res is not pb:
                 w.violate('extract-return', 'extract_particles did not return the destination it was given')
             for i in ii:
@@ -501,11 +502,12 @@ def apply_op(w, op):
                     d[p] = rr[i][p]
                 mb.recs.append(d)
             if ii:
-                mb.aligned = True
+                mb.aligned = True if al else False
             touched = [ai, bi]
             desc = 'extract_particles(%s, dest=array %d, props=%s)' % (ii, bi, props)
         else:
-            res = pa.extract_particles(np.array(ii, dtype=int) if flag else list(ii), align=True, props=props)
+            al = int(op.get('tag', 0)) % 3 != 1
+            res = pa.extract_particles(np.array(ii, dtype=int) if flag else list(ii), align=al, props=props)
             mr = MArr(m.name, 0)
             use = props if props is not None else sorted(m.props)
             for p in use:
@@ -519,7 +521,7 @@ def apply_op(w, op):
                     d[p] = rr[i][p]
                 mr.recs.append(d)
             mr.out = None if m.out is None else [p for p in m.out if props is None or p in props]
-            mr.aligned = True
+            mr.aligned = bool(al) or not ii
             # the result replaces array bi (or is appended when there is room)
             if na < 3:
                 w.real.append(res)
